@@ -21,6 +21,7 @@ CONSTANTS Iters,         \* iterator slots
           Tids,          \* thread ids (disjoint from Pids), all threads of TidOwnerPid
           TidOwnerPid,
           Probe,         \* integers pid_exists() is asked about besides Pids/Tids
+          AttrIters,     \* iterators called with attrs that are read from /proc (e.g. ["pid", "status"])
           Fixes,         \* {"C04drain"}: drain _pids_reused before diffing
           KnownFindings  \* e.g. {"C04-reused-skipped"}
 
@@ -129,10 +130,19 @@ IterStart(k) ==
 \* One next(): PIDs that are new to the cache and have vanished since the
 \* listing are swallowed (NoSuchProcess from the constructor) without
 \* suspending the generator; the first other one is yielded.
+\* With attrs that are read from /proc the same happens to a CACHED entry whose
+\* process has vanished since the listing: as_dict() raises NoSuchProcess, the
+\* entry is dropped from the iterator's map and the PID is skipped.
+Swallowed(k, p) == IF it[k].lpmap[p] # 0 THEN k \in AttrIters /\ ~Live(p) ELSE ~Live(p)
 RECURSIVE Adv(_, _)
 Adv(k, todo) == IF todo = <<>> THEN <<>>
-                ELSE IF it[k].lpmap[Head(todo)] # 0 \/ Live(Head(todo)) THEN todo
+                ELSE IF ~Swallowed(k, Head(todo)) THEN todo
                 ELSE Adv(k, Tail(todo))
+\* cached entries swallowed by the next step of iterator k
+CachedSkipped(k) ==
+  LET t == it[k].todo  n == Len(t) - Len(Adv(k, t))
+  IN {t[i] : i \in 1..n} \cap {q \in Pids : it[k].lpmap[q] # 0}
+Pruned(k) == [q \in Pids |-> IF q \in CachedSkipped(k) THEN 0 ELSE it[k].lpmap[q]]
 
 IterStep(k) ==
   /\ Active(k) /\ first \in {0, k}
@@ -141,8 +151,9 @@ IterStep(k) ==
   /\ LET adv == Adv(k, it[k].todo)  p == Head(adv)  rest == Tail(adv)  o == it[k].lpmap[p] IN
      IF o # 0
        THEN \* cached: yielded as is
-            /\ it' = [it EXCEPT ![k].todo = rest, ![k].last = p]
-            /\ cur' = IF p \in it[k].det THEN cur ELSE [cur EXCEPT ![p] = o]
+            /\ it' = [it EXCEPT ![k].todo = rest, ![k].last = p, ![k].lpmap = Pruned(k)]
+            /\ cur' = [q \in Pids |-> IF q \in CachedSkipped(k) THEN 0
+                                      ELSE IF q = p /\ p \notin it[k].det THEN o ELSE cur[q]]
             /\ ev' = [op |-> "it_step", k |-> k, pid |-> p, res |-> "yield", o |-> o,
                       fresh |-> FALSE, want |-> it[k].want[p], prev |-> it[k].last,
                       inL |-> (p \in it[k].listing), dirty |-> dirty]
@@ -152,8 +163,9 @@ IterStep(k) ==
                                                start |-> table[p].start,
                                                gone |-> FALSE, reused |-> FALSE]]
             /\ nextObj' = nextObj + 1
-            /\ it' = [it EXCEPT ![k].todo = rest, ![k].last = p, ![k].lpmap[p] = nextObj]
-            /\ cur' = IF p \in it[k].det THEN cur ELSE [cur EXCEPT ![p] = nextObj]
+            /\ it' = [it EXCEPT ![k].todo = rest, ![k].last = p, ![k].lpmap = [Pruned(k) EXCEPT ![p] = nextObj]]
+            /\ cur' = [q \in Pids |-> IF q \in CachedSkipped(k) THEN 0
+                                      ELSE IF q = p /\ p \notin it[k].det THEN nextObj ELSE cur[q]]
             /\ ev' = [op |-> "it_step", k |-> k, pid |-> p, res |-> "yield", o |-> nextObj,
                       fresh |-> TRUE, want |-> it[k].want[p], prev |-> it[k].last,
                       inL |-> (p \in it[k].listing), dirty |-> dirty]
@@ -173,13 +185,15 @@ IterFinish(k) ==
   /\ Active(k) /\ first \in {0, k}
   /\ Adv(k, it[k].todo) = <<>>
   /\ first' = 0
-  /\ gpmap' = it[k].lpmap
+  /\ gpmap' = Pruned(k)
   /\ it' = [it EXCEPT ![k] = Idle]
-  /\ Resync(k)
+  /\ IF dirty /\ ~\E j \in Iters \ {k} : Active(j)
+       THEN cur' = [p \in Pids |-> IF p \in pidsReused THEN 0 ELSE Pruned(k)[p]] /\ dirty' = FALSE
+       ELSE cur' = [q \in Pids |-> IF q \in CachedSkipped(k) THEN 0 ELSE cur[q]] /\ UNCHANGED dirty
   /\ ev' = [op |-> "it_finish", k |-> k,
-            missed |-> (it[k].must \ {p \in Pids : it[k].lpmap[p] # 0}) ,
+            missed |-> (it[k].must \ {p \in Pids : Pruned(k)[p] # 0}) ,
             excused |-> it[k].excused, dirty |-> dirty,
-            keys |-> {p \in Pids : it[k].lpmap[p] # 0}, listing |-> it[k].listing]
+            keys |-> {p \in Pids : Pruned(k)[p] # 0}, listing |-> it[k].listing]
   /\ UNCHANGED <<kvars, tids, pidsReused, obj, nextObj>>
 
 \* generator closed / garbage collected before exhaustion: same `finally`
